@@ -6,7 +6,6 @@
 package vstat
 
 import (
-	"strconv"
 	"encoding/json"
 	"flag"
 	"fmt"
@@ -16,8 +15,10 @@ import (
 	"regexp"
 	"runtime"
 	"sort"
+	"strconv"
 	"strings"
 	"sync"
+	"sync/atomic"
 	"testing"
 	"time"
 
@@ -41,7 +42,15 @@ var (
 	Seed = flag.Int64("seed", 1, "auxiliary seed for non-rapid parts")
 	// Known is the known-findings file.
 	Known = flag.String("known", "", "path of known_findings.json")
+	// NoGlogV switches the per-case glog verbosity draw of RunRapid off.
+	NoGlogV = flag.Bool("noglogv", false, "do not draw a glog verbosity per rapid case")
 )
+
+// curGlogV is the glog verbosity of the case being run (RunRapid draws it; a replay restores it).
+var curGlogV atomic.Int32
+
+// GlogV returns the glog verbosity under which the current case runs.
+func GlogV() int { return int(curGlogV.Load()) }
 
 // Violation is one failing case.
 type Violation struct {
@@ -78,6 +87,7 @@ type Recorder struct {
 	lastFail []byte // last failing scenario as JSON
 	lastMsg  string
 	lastCls  string
+	lastV    int // glog verbosity under which the last failing case ran
 	frozen   bool
 }
 
@@ -112,6 +122,9 @@ func (r *Recorder) Case(scenario any, nontrivial bool, labels ...string) {
 	r.res.Evaluations++
 	for _, l := range labels {
 		r.res.Labels[l]++
+	}
+	if GlogV() > 0 {
+		r.res.Labels["glog-verbosity>0"]++
 	}
 	if nontrivial {
 		h := Hash(scenario)
@@ -217,7 +230,7 @@ func (r *Recorder) Fail(scenario any, class, format string, a ...any) string {
 		b = []byte(fmt.Sprintf("%q", fmt.Sprintf("%#v", scenario)))
 	}
 	r.mu.Lock()
-	r.lastFail, r.lastMsg, r.lastCls = b, msg, class
+	r.lastFail, r.lastMsg, r.lastCls, r.lastV = b, msg, class, GlogV()
 	// Stop counting: everything after the first failure is shrinking.
 	r.frozen = true
 	r.mu.Unlock()
@@ -235,6 +248,7 @@ func (r *Recorder) Current(scenario any) {
 	}
 	b, _ := json.Marshal(scenario)
 	os.WriteFile(filepath.Join(*OutDir, fmt.Sprintf("current.%s.%s.%s.json", r.res.Property, r.res.Part, *Shard)), b, 0o644)
+	os.WriteFile(filepath.Join(*OutDir, fmt.Sprintf("current.%s.%s.%s.glogv", r.res.Property, r.res.Part, *Shard)), []byte(strconv.Itoa(GlogV())), 0o644)
 }
 
 // AddViolation records a violation directly (used by non-rapid parts such as
@@ -258,7 +272,7 @@ func (r *Recorder) commitFail(kind string) {
 		dir := filepath.Join(*OutDir, "replays")
 		os.MkdirAll(dir, 0o755)
 		// The replay file carries its own routing information.
-		wrapped := map[string]any{"property": r.res.Property, "part": r.res.Part, "kind": kind, "class": r.lastCls, "message": r.lastMsg, "scenario": json.RawMessage(r.lastFail)}
+		wrapped := map[string]any{"property": r.res.Property, "part": r.res.Part, "kind": kind, "class": r.lastCls, "message": r.lastMsg, "scenario": json.RawMessage(r.lastFail), "glog_v": r.lastV}
 		b, _ := json.MarshalIndent(wrapped, "", " ")
 		path = filepath.Join(dir, fmt.Sprintf("%s.%s.%s.%d.json", r.res.Property, r.res.Part, *Shard, len(r.res.Violations)))
 		os.WriteFile(path, b, 0o644)
@@ -312,7 +326,19 @@ func (r *Recorder) RunRapid(t *testing.T, prop func(*rapid.T)) {
 	n := RapidChecks()
 	r.SetRequested(n)
 	before := r.res.Evaluations
-	ok := t.Run("rapid", func(t *testing.T) { rapid.Check(t, prop) })
+	ok := t.Run("rapid", func(t *testing.T) {
+		rapid.Check(t, func(rt *rapid.T) {
+			// glog verbosity of the process as a generated dimension of every case: the code inside
+			// `if log.V(n)` blocks (formatting, extra locking, ...) is otherwise never executed.
+			v := 0
+			if !*NoGlogV {
+				v = rapid.SampledFrom([]int{0, 0, 0, 0, 2, 1, 3, 2}).Draw(rt, "glog-v")
+			}
+			curGlogV.Store(int32(v))
+			defer SetGlogV(v)()
+			prop(rt)
+		})
+	})
 	if !ok {
 		r.commitFail("rapid")
 		r.Flush(true)
@@ -346,6 +372,7 @@ type ReplayFile struct {
 	Class    string          `json:"class"`
 	Message  string          `json:"message"`
 	Scenario json.RawMessage `json:"scenario"`
+	GlogV    int             `json:"glog_v,omitempty"`
 }
 
 // LoadReplay reads a replay file; ok is false if -replay is unset.
@@ -360,6 +387,11 @@ func LoadReplay() (*ReplayFile, bool, error) {
 	var rf ReplayFile
 	if err := json.Unmarshal(b, &rf); err != nil {
 		return nil, true, err
+	}
+	if rf.GlogV > 0 {
+		// the case ran with this glog verbosity; the replay process keeps it until it exits
+		curGlogV.Store(int32(rf.GlogV))
+		SetGlogV(rf.GlogV)
 	}
 	return &rf, true, nil
 }
